@@ -255,9 +255,18 @@ def rewrite_event(fa, ctx, term, ty, fmt, variant, eid, with_infer):
     except RecursionError:
         ev["raised"] = "RecursionError"
     except NotImplementedError as ex:
-        if variant in ("numpy+rewrite", "cpp+rewrite") and " target" in str(ex):
-            # the target's expansion pass declines a kind it has no implementation for:
-            # the expression is not one the target accepts - not judged
+        declined = False
+        if variant in ("numpy+rewrite", "cpp+rewrite"):
+            # the target's expansion pass declines a kind it has no implementation for: the expression is not one the
+            # target accepts - not judged.  Decided by running the expansion pass ALONE (it raises NotImplementedError
+            # by itself), never by the wording of the message.
+            try:
+                e.rewrite(targets.numpy if variant == "numpy+rewrite" else targets.cpp)
+            except NotImplementedError:
+                declined = True
+            except Exception:  # noqa
+                pass
+        if declined:
             ev["declined"] = str(ex)[:100]
         else:
             ev["raised"] = type(ex).__name__
